@@ -213,32 +213,40 @@ def compute_refs(desc, env):
     refs = {"targets": {}, "ops": None, "nupdates": 0}
     byname = {f["path"]: f for f in desc["sandbox"]}
     for t in targets:
-        d1 = copy.deepcopy(rd)
-        h1, _ = _argv_targets(d1)
-        d1["argv"] = h1 + ["-f", t]
-        r1 = env.run(d1, keep_files=(t,))
-        if r1["status"] not in ("exit",) or not any(rec[0] == "task-begin" for rec in r1["records"]):
-            env.cache[key] = None
-            return None
-        err = runner.stream_of(r1)[0]["e"]
-        rejected = "Error while processing" in err
-        ent = {
-            "orig": workload.sb_digest(byname[t]),
-            "mode": int(byname[t]["mode"], 8),
-            "fixed": r1["after"][t]["h"] if t in r1["after"] else None,
-            "rejected": rejected,
-            "ops": [(o["task"], o["n"], o["kind"], o["extra"]) for o in runner.ops_of(r1) if o["task"] != "main"],
-        }
-        ent["allowed"] = {ent["orig"], ent["fixed"]}
-        if has_dup and ent["fixed"] != ent["orig"] and r1["kept"].get(t) is not None:
-            sb2 = [f for f in desc["sandbox"] if f["path"] != t] + [workload.sb_entry(t, r1["kept"][t], byname[t]["mode"])]
-            d2 = copy.deepcopy(d1)
-            d2["sandbox"] = sb2
-            r2 = env.run(d2)
-            if r2["status"] != "exit":
+        # one reference per *spelling* of the target on the command line ("a.vhd", "./a.vhd"):
+        # per-file configuration sections are matched by the name as given, so two spellings of one
+        # file can legitimately be treated differently (one rejected, one fixed)
+        spellings = list(dict.fromkeys(n for n in names if _norm(n) == t))
+        ent = {"orig": workload.sb_digest(byname[t]), "mode": int(byname[t]["mode"], 8), "fixed": None, "rejected": True, "ops": []}
+        ent["allowed"] = {ent["orig"]}
+        for sp in spellings:
+            d1 = copy.deepcopy(rd)
+            h1, _ = _argv_targets(d1)
+            d1["argv"] = h1 + ["-f", sp]
+            r1 = env.run(d1, keep_files=(t,))
+            if r1["status"] not in ("exit",) or not any(rec[0] == "task-begin" for rec in r1["records"]):
                 env.cache[key] = None
                 return None
-            ent["allowed"].add(r2["after"][t]["h"])
+            err = runner.stream_of(r1)[0]["e"]
+            rejected = "Error while processing" in err
+            fixed = r1["after"][t]["h"] if t in r1["after"] else None
+            ent["rejected"] = ent["rejected"] and rejected
+            if ent["fixed"] is None or fixed != ent["orig"]:
+                ent["fixed"] = fixed
+            ent["allowed"].add(fixed)
+            if not ent["ops"]:
+                ent["ops"] = [(o["task"], o["n"], o["kind"], o["extra"]) for o in runner.ops_of(r1) if o["task"] != "main"]
+            if has_dup and fixed != ent["orig"] and r1["kept"].get(t) is not None:
+                sb2 = [f for f in desc["sandbox"] if f["path"] != t] + [workload.sb_entry(t, r1["kept"][t], byname[t]["mode"])]
+                for sp2 in spellings:
+                    d2 = copy.deepcopy(d1)
+                    d2["sandbox"] = sb2
+                    d2["argv"] = h1 + ["-f", sp2]
+                    r2 = env.run(d2)
+                    if r2["status"] != "exit":
+                        env.cache[key] = None
+                        return None
+                    ent["allowed"].add(r2["after"][t]["h"])
         refs["targets"][t] = ent
     env.cache[key] = refs
     return refs
